@@ -141,6 +141,8 @@ type pathState struct {
 	preemptBound int
 	concLoss   []string
 	domains map[string]*domain // finite inputs constrained only by unary constraints
+	divCache map[string][2]*Term
+	lazyDefs map[string][]*Term // definitional constraints of fresh variables, asserted on first use
 }
 
 // Result of exploring one harness.
@@ -591,10 +593,47 @@ func (i *interpreter) newVar(name string, s Sort) *Term {
 	return v
 }
 
+// activate asserts the pending definitions of the variables mentioned by t.
+func (i *interpreter) activate(t *Term) {
+	if len(i.path.lazyDefs) == 0 {
+		return
+	}
+	var names []string
+	var rec func(t *Term)
+	rec = func(t *Term) {
+		if t.Op == "var" {
+			if _, ok := i.path.lazyDefs[t.Name]; ok {
+				names = append(names, t.Name)
+			}
+			return
+		}
+		for _, a := range t.Args {
+			rec(a)
+		}
+	}
+	rec(t)
+	for _, n := range names {
+		defs, ok := i.path.lazyDefs[n]
+		if !ok {
+			continue
+		}
+		delete(i.path.lazyDefs, n)
+		for other, od := range i.path.lazyDefs {
+			if len(od) > 0 && len(defs) > 0 && &od[0] == &defs[0] {
+				delete(i.path.lazyDefs, other)
+			}
+		}
+		for _, d := range defs {
+			i.addPC(d)
+		}
+	}
+}
+
 func (i *interpreter) addPC(t *Term) {
 	if t.isTrue() {
 		return
 	}
+	i.activate(t)
 	if len(i.path.domains) > 0 {
 		i.path.narrow(t)
 	}
@@ -617,6 +656,9 @@ func (i *interpreter) nextDecision(k decisionKind) (decision, bool) {
 }
 
 func (i *interpreter) check(extra ...*Term) solverResult {
+	for _, x := range extra {
+		i.activate(x)
+	}
 	res, _ := i.solver.Check(extra, nil)
 	if res == resUnknown {
 		panic(pathAbort{kind: abortSolver, msg: "solver answered unknown/timeout/error"})
@@ -991,6 +1033,7 @@ func (i *interpreter) assert(c value, id string) {
 	p.nontrivial = true
 	i.assertsSymbolic++
 	neg := tNot(t)
+	i.activate(neg)
 	res, model := i.solver.Check([]*Term{neg}, p.vars)
 	if res == resUnknown {
 		panic(pathAbort{kind: abortSolver, msg: "solver answered unknown on assertion " + id})
@@ -1030,4 +1073,59 @@ func (i *interpreter) recordViolation(id, msg string, model map[string]uint64) {
 	v.Inputs = i.inputsFromModel(model)
 	v.Trace = append([]string(nil), p.notes...)
 	p.violations = append(p.violations, v)
+}
+
+// divByConst returns fresh variables q, r with x = c*q + r under Go's truncated
+// division, constrained in the path condition (a definition, not a branch).
+func (i *interpreter) divByConst(x *Term, c int64, signed bool) (q, r *Term) {
+	p := i.path
+	key := fmt.Sprintf("%p/%d/%v", x, c, signed)
+	if d, ok := p.divCache[key]; ok {
+		return d[0], d[1]
+	}
+	w := x.S.W
+	q = i.newVar("quo", x.S)
+	r = i.newVar("rem", x.S)
+	zero := mkBV(0, w)
+	var defs []*Term
+	add := func(t *Term) { defs = append(defs, t) }
+	defer func() {
+		if p.lazyDefs == nil {
+			p.lazyDefs = map[string][]*Term{}
+		}
+		// both variables share the definition; whichever is used first asserts it
+		p.lazyDefs[q.Name] = defs
+		p.lazyDefs[r.Name] = defs
+	}()
+	if signed {
+		ac := c
+		if ac < 0 {
+			ac = -ac
+		}
+		// x = |c|*q0 + r with q0 = trunc(x/|c|); the quotient for negative c is -q0
+		q0 := q
+		if c < 0 {
+			q0 = bvNeg(q)
+		}
+		cT := mkBV(uint64(ac), w)
+		add(tEq(x, bvBin("bvadd", bvBin("bvmul", cT, q0), r)))
+		maxQ := int64((uint64(1)<<uint(w-1) - 1) / uint64(ac))
+		add(tAnd(bvCmp("bvsle", mkBV(uint64(-maxQ-1), w), q0), bvCmp("bvsle", q0, mkBV(uint64(maxQ+1), w))))
+		nonneg := bvCmp("bvsle", zero, x)
+		add(tIte(nonneg,
+			tAnd(bvCmp("bvsle", zero, r), bvCmp("bvslt", r, cT)),
+			tAnd(bvCmp("bvslt", bvNeg(cT), r), bvCmp("bvsle", r, zero))))
+		// the sign of a non-zero quotient follows the operands
+		add(tIte(nonneg, bvCmp("bvsle", zero, q0), bvCmp("bvsle", q0, zero)))
+	} else {
+		cT := mkBV(uint64(c), w)
+		add(tEq(x, bvBin("bvadd", bvBin("bvmul", cT, q), r)))
+		add(bvCmp("bvult", r, cT))
+		add(bvCmp("bvule", q, mkBV(mask(w)/uint64(c), w)))
+	}
+	if p.divCache == nil {
+		p.divCache = map[string][2]*Term{}
+	}
+	p.divCache[key] = [2]*Term{q, r}
+	return q, r
 }
